@@ -1373,7 +1373,13 @@ func emitH(id string, sg *Seg, sr *segRun, i int, stats map[string]int) {
 		}
 		return "0"
 	}
-	cfg := fmt.Sprintf("m=%s;t=%s;o=%s;p0=%s;pre=%s;mx=%s;tx=%s;post=%s;trex=%s;enc=%s;dec=%s", b2s(fs.Multi), hexCsv(tracks), b2s(sg.Opt),
+	plain := sumSizes(fs.MoofX) == 0
+	for _, x := range trafx {
+		if x != 0 {
+			plain = false
+		}
+	}
+	cfg := fmt.Sprintf("seq=%s;plain=%s;m=%s;t=%s;o=%s;p0=%s;pre=%s;mx=%s;tx=%s;post=%s;trex=%s;enc=%s;dec=%s", hx.HexU(uint64(fs.Seq)), b2s(plain), b2s(fs.Multi), hexCsv(tracks), b2s(sg.Opt),
 		hx.HexU(pos), hx.HexU(r.pre), hx.HexU(sumSizes(fs.MoofX)), hexCsv(trafx), hx.HexU(sumSizes(fs.Post)), strings.Join(trexs, ","), b2s(encStage), b2s(dec))
 	ops := make([]string, len(fs.Ops))
 	for k := range fs.Ops {
@@ -1395,6 +1401,16 @@ func emitH(id string, sg *Seg, sr *segRun, i int, stats map[string]int) {
 			if c == 'o' {
 				sb.WriteString("/" + hx.HexU(f.Moof.Size()) + "/" + hx.HexU(m.HeaderSize()) + "/" + hx.HexU(uint64(sr.fragLen[i])))
 				sb.WriteString(trafEnc(f))
+				if plain {
+					// the moof bytes (re-encoded here: the fragment is in its encoded state)
+					var mb bytes.Buffer
+					if p := hx.Try(func() { _ = f.Moof.Encode(&mb) }); p == "" {
+						sb.WriteString("|moof=" + hx.Hex(mb.Bytes()))
+						stats["H.moof-bytes"]++
+					} else {
+						sb.WriteString("|moof=panic")
+					}
+				}
 			}
 		}
 		if dec {
